@@ -1,96 +1,95 @@
 package rules
 
 import (
-	"go/ast"
+	"go/constant"
+	"go/token"
 	"go/types"
 
 	"cvsslint/internal/facts"
-
-	"golang.org/x/tools/go/types/typeutil"
+	"cvsslint/internal/ir"
 )
 
-// ctorLiteral returns the composite literal a constructor returns the address
-// of:  func NewX() *X { return &X{...} } .
-func (e *Env) ctorLiteral(ctor *types.Func, rule string) (*ast.CompositeLit, *types.Info) {
-	decl := e.P.Decl(ctor)
-	pk := e.P.PkgOf(ctor)
-	if decl == nil || decl.Body == nil || pk == nil {
-		e.C.Undecided(rule, fname(ctor), "", "no source for the constructor")
-		return nil, nil
-	}
-	if len(decl.Body.List) != 1 {
-		e.C.Undecided(rule, fname(ctor), e.P.Pos(ctor.Pos()), "constructor body is not a single return of a composite literal")
-		return nil, nil
-	}
-	ret, ok := decl.Body.List[0].(*ast.ReturnStmt)
-	if !ok || len(ret.Results) != 1 {
-		e.C.Undecided(rule, fname(ctor), e.P.Pos(ctor.Pos()), "constructor body is not a single return of a composite literal")
-		return nil, nil
-	}
-	x := ast.Unparen(ret.Results[0])
-	if u, ok := x.(*ast.UnaryExpr); ok {
-		x = ast.Unparen(u.X)
-	}
-	cl, ok := x.(*ast.CompositeLit)
-	if !ok {
-		e.C.Undecided(rule, fname(ctor), e.P.Pos(ctor.Pos()), "constructor does not return a composite literal")
-		return nil, nil
-	}
-	return cl, pk.TypesInfo
-}
-
-// litFields maps the struct fields named in a keyed composite literal to their initialiser expressions.
-func litFields(cl *ast.CompositeLit, info *types.Info) (map[*types.Var]ast.Expr, bool) {
-	out := map[*types.Var]ast.Expr{}
-	for _, el := range cl.Elts {
-		kv, ok := el.(*ast.KeyValueExpr)
-		if !ok {
-			return nil, false
-		}
-		id, ok := kv.Key.(*ast.Ident)
-		if !ok {
-			return nil, false
-		}
-		fv, ok := info.Uses[id].(*types.Var)
-		if !ok || !fv.IsField() {
-			return nil, false
-		}
-		out[fv] = kv.Value
-	}
-	return out, true
-}
-
-// ctorInits returns the constant initial values of the metric fields of level l.
-func (e *Env) ctorInits(ctor *types.Func, l *facts.Level, rule string) map[*types.Var]facts.Value {
-	cl, info := e.ctorLiteral(ctor, rule)
-	if cl == nil {
+// ctorFields models a constructor by what it does rather than by how it is written: on its single path it
+// allocates one object, stores into fields of that object, and returns the object's address. The result maps each
+// stored field to the term stored (a composite literal, new(T) followed by assignments and a local variable whose
+// address is returned all look the same here).
+func (e *Env) ctorFields(ctor *types.Func, rule string) map[*types.Var]*ir.Term {
+	sf := e.P.SSAFunc(ctor)
+	who := fname(ctor)
+	pos := e.P.Pos(ctor.Pos())
+	if sf == nil || len(sf.Blocks) == 0 {
+		e.C.Undecided(rule, who, pos, "no body for the constructor")
 		return nil
 	}
-	fields, ok := litFields(cl, info)
-	if !ok {
-		e.C.Undecided(rule, fname(ctor), e.P.Pos(cl.Pos()), "composite literal is not fully keyed")
+	leaves, err := ir.Leaves(sf, ir.LeafOptions{Forward: true, Effects: true, Inline: e.inlineHelpers()})
+	if err != nil {
+		e.C.Undecided(rule, who, pos, err.Error())
 		return nil
 	}
-	out := map[*types.Var]facts.Value{}
-	for fv, x := range fields {
-		v := e.F.StaticValue(info, x)
-		if v.Kind == facts.VConst {
-			out[fv] = v
+	if len(leaves) != 1 || len(leaves[0].Ret) != 1 {
+		e.C.Undecided(rule, who, pos, "the constructor does not have exactly one path returning one value")
+		return nil
+	}
+	lf := leaves[0]
+	ret := lf.Ret[0]
+	if ret.Op != ir.OAddr || len(ret.Args) != 1 || ret.Args[0].Op != ir.OAlloc {
+		e.C.Undecided(rule, who, pos, "the constructor does not return the address of an object it allocates: "+clip(ret.Pretty()))
+		return nil
+	}
+	out := map[*types.Var]*ir.Term{}
+	for _, ef := range lf.Effects {
+		switch ef.Kind {
+		case "store":
+			if ef.Addr.Op == ir.OField && len(ef.Addr.Args) == 1 && ef.Addr.Args[0].Key() == ret.Key() {
+				fv, _ := ef.Addr.Obj.(*types.Var)
+				if fv == nil {
+					continue
+				}
+				if _, dup := out[fv]; dup {
+					e.C.Undecided(rule, who, e.P.Pos(ef.Pos), "field "+fv.Name()+" is assigned twice in the constructor")
+					return nil
+				}
+				out[fv] = ef.Val
+				continue
+			}
+			e.C.Undecided(rule, who, e.P.Pos(ef.Pos), "the constructor stores into something other than a field of the new object: "+clip(ef.Addr.Pretty()))
+			return nil
+		case "map-update":
+			e.C.Undecided(rule, who, e.P.Pos(ef.Pos), "the constructor fills a map")
+			return nil
 		}
 	}
 	return out
 }
 
-func astCompositeLit(x ast.Expr) (*ast.CompositeLit, bool) {
-	cl, ok := ast.Unparen(x).(*ast.CompositeLit)
-	return cl, ok
+// termValue converts a constant term to the table model's value (with the enum constant it names, if any).
+func (e *Env) termValue(t *ir.Term) facts.Value {
+	if t == nil || t.Op != ir.OConst || t.C == nil || t.Typ == nil {
+		return facts.Value{Kind: facts.VInvalid}
+	}
+	v := facts.Value{Kind: facts.VConst, C: t.C, Type: t.Typ}
+	if en := e.F.EnumOf(t.Typ); en != nil {
+		for _, cst := range en.Consts {
+			if constant.Compare(cst.Val(), token.EQL, t.C) {
+				v.Obj = cst
+				break
+			}
+		}
+	}
+	return v
 }
 
-func calleeOf(info *types.Info, x ast.Expr) *types.Func {
-	call, ok := ast.Unparen(x).(*ast.CallExpr)
-	if !ok {
+// ctorInits returns the constant initial values of the metric fields of level l.
+func (e *Env) ctorInits(ctor *types.Func, l *facts.Level, rule string) map[*types.Var]facts.Value {
+	fields := e.ctorFields(ctor, rule)
+	if fields == nil {
 		return nil
 	}
-	fn, _ := typeutil.Callee(info, call).(*types.Func)
-	return fn
+	out := map[*types.Var]facts.Value{}
+	for fv, t := range fields {
+		if v := e.termValue(t); v.Kind == facts.VConst {
+			out[fv] = v
+		}
+	}
+	return out
 }
